@@ -33,6 +33,8 @@ use serde_json::json;
 
 #[path = "c01_corr.rs"]
 pub mod corr;
+#[path = "c01_api.rs"]
+pub mod api;
 
 struct Case {
     family: &'static str,
@@ -439,6 +441,16 @@ pub fn run(driver: &Driver, seed: u64, thorough: bool, replay: Option<&serde_jso
             or.fail(&sig, &format!("{} / {} [{}{}]: {}", c.family, c.desc, if c.doc.tolerant { "tolerant" } else { "strict" }, if c.doc.cached { ", cached" } else { ", uncached" }, what),
                 json!({"stream": "c01.walk", "seed": seed, "family": c.family, "doc": c.desc, "tolerant": c.doc.tolerant, "cached": c.doc.cached, "file_hex": hex(&c.doc.bytes)}));
         }
+    }
+    {
+        // the public read interface of the crate (from the source, now) against what the walker called
+        let (list, problems) = api::public_read_api(&crate::util::repo_root());
+        let labels: std::collections::BTreeSet<String> = calls_total.keys().cloned().collect();
+        let (reached, not_reached) = api::coverage(&list, &labels);
+        for p in problems { rep.notes.push(format!("public_read_api: {}", p)); }
+        rep.notes.push(format!("public read entry points (pub fn of the read-side types, from the source): {} listed, {} reached by the walker, {} not reached (extra.public_read_api)", list.len(), reached.len(), not_reached.len()));
+        rep.extra.insert("public_read_api".into(), json!({"listed": list.len(), "reached": reached, "not_reached": not_reached,
+            "rule": "pub fn in inherent impls of the read-side types of pdf/src (c01_api.rs: TYPES) and the methods of trait Resolve, minus constructors / writers / builders; a function counts as reached when a walker label stands for it (c01_api.rs: LABELS)"}));
     }
     rep.extra.insert("entry_points_reached".into(), json!(calls_total));
     rep.extra.insert("slowest_document".into(), json!({"ms": slowest.0, "doc": slowest.1}));
